@@ -85,6 +85,10 @@ func runC10(c *Ctx) {
 	c10Upload(c)
 	c10LastResort(c, "last-resort")
 	nilFuncCalls(c, "nil-func-call", pkgTransport)
+	limitHelpersOwnField(c)
+	seekAddsOffset(c)
+	// an error answer ends the request: nothing is executed, and no second document is appended, after it (C09)
+	c09StatusVsDispatch(c, nil)
 }
 
 func c10DecodeNil(c *Ctx) {
